@@ -11,6 +11,7 @@ from fractions import Fraction
 from .values import *
 
 INF = float('inf')
+DELETED = object()
 TAGS = ('view', 'zip', 'gen', 'objdict', 'lambda', 'builtin_method', 'slice', 'range', 'sdview', 'pymodule', 'closure', 'namedtuple')
 
 
@@ -162,6 +163,8 @@ def truth(ctx, v):
             return v
         if z3.is_arith(v):
             return v != 0
+        if v.sort() == Label:
+            raise Unsupported("label genericity: truth value of a node label is used (labels are only compared for equality)")
         raise Unsupported(f"truth of {v.sort()}")
     if isinstance(v, (int, Fraction, float)):
         return v != 0
@@ -808,10 +811,10 @@ class Interp:
             c = eq(k, ok)
             if isinstance(c, bool):
                 if c:
-                    return True
+                    return ov is not DELETED
                 continue
             if self.ctx.branch(c, f"sd-alias:{d.name}"):
-                return True
+                return ov is not DELETED
         kk = self.sd_key(k)
         if kk not in d.memo_has:
             h = d.has_hook(self, k) if d.has_hook else None
@@ -823,9 +826,13 @@ class Interp:
             c = eq(k, ok)
             if isinstance(c, bool):
                 if c:
+                    if ov is DELETED:
+                        raise PyRaise('KeyError', f"{d.name}[{k!r}]")
                     return ov
                 continue
             if self.ctx.branch(c, f"sd-alias:{d.name}"):
+                if ov is DELETED:
+                    raise PyRaise('KeyError', f"{d.name}[{k!r}]")
                 return ov
         h = self.sd_has(d, k)
         if not self.ctx.branch(h, f"sd-has:{d.name}"):
@@ -1115,6 +1122,31 @@ class Interp:
 
     def s_Global(self, st, env):
         pass
+
+    def s_Delete(self, st, env):
+        for t in st.targets:
+            if isinstance(t, ast.Subscript):
+                o = self.ev(t.value, env)
+                k = self.ev(t.slice, env)
+                if isinstance(o, SymDict):
+                    if not self.ctx.branch(self.sd_has(o, k), f"sd-del:{o.name}"):
+                        raise PyRaise('KeyError', repr(k))
+                    o.overlay.append((k, DELETED))
+                    o.writes.append((k, DELETED))
+                    self.ctx.events.append(Event('dictdel', d=o, key=k, loops=list(self.ctx.loop_stack)))
+                    continue
+                if isinstance(o, dict):
+                    for kk in list(o):
+                        if self.ctx.branch(eq(k, kk), 'dictdel'):
+                            del o[kk]
+                            break
+                    else:
+                        raise PyRaise('KeyError', repr(k))
+                    continue
+            if isinstance(t, ast.Name) and t.id in env:
+                del env[t.id]
+                continue
+            raise Unsupported("del statement")
 
     def s_FunctionDef(self, st, env):
         env[st.name] = ('closure', st, env)      # may be stored; calling it is unsupported
